@@ -63,6 +63,8 @@ class VCResult:
         self.samples = []
         self.obligation_names = set()
         self.infeasible = 0
+        self.validated = 0
+        self.validation_failures = []
 
 
 def snapshot_storage(storage):
@@ -114,7 +116,29 @@ def discharge(ctx, prop, timeout_ms):
     return ("sat" if r == z3.sat else ("unsat" if r == z3.unsat else "unknown")), m
 
 
-def run_vc(prog, models, vc, bounds=None, path_limit=20000, query_timeout_ms=20000, time_limit=None, stop_on_first=False):
+def validate_path(I, vc, ctx, ob):
+    """differential validation of the encoder: concretise this (non-violating) path with a solver model, run the real contract
+    natively on the same inputs and compare outcome, post-state and response with the interpreter's prediction"""
+    from . import findings
+    rp = ob.info.get("replay")
+    if not rp or rp.get("entry") is None: return None
+    if ctx.check() != z3.sat: return None
+    v = Violation(vc, "(validation)", list(ctx.taken), list(ctx.labels), ctx.solver.model(), ctx, dict(ob.info))
+    refiners = getattr(ctx, "model_refiners", None)
+    if refiners:
+        s2 = z3.Solver(); s2.set("timeout", 30000)
+        s2.add(*ctx.pc)
+        for rf in refiners: s2.add(*rf(ctx))
+        if s2.check() != z3.sat: return None
+        v.model = s2.model()
+    try:
+        r = findings.step_replay(I, vc, v)
+    except Exception as e:
+        return {"ok": None, "why": f"{type(e).__name__}: {e}"}
+    return {"ok": r.get("reproduced"), "diffs": r.get("diffs"), "request": r.get("request"), "native": r.get("native"), "predicted_outcome": r.get("predicted_outcome")}
+
+
+def run_vc(prog, models, vc, bounds=None, path_limit=20000, query_timeout_ms=20000, time_limit=None, stop_on_first=False, validate=0):
     I = Interp(prog, models)
     res = VCResult(vc.name)
     stats = Stats()
@@ -147,6 +171,11 @@ def run_vc(prog, models, vc, bounds=None, path_limit=20000, query_timeout_ms=200
         res.outcomes[ob.outcome] = res.outcomes.get(ob.outcome, 0) + 1
         res.funcs |= ctx.funcs_used
         res.models |= ctx.models_used
+        if validate and res.validated + len(res.validation_failures) < validate and ob.info.get("replay") and (res.paths % 7 == 1 or res.paths <= 2):
+            vr = validate_path(I, vc, ctx, ob)
+            if vr is not None and vr.get("ok") is True: res.validated += 1
+            elif vr is not None and vr.get("ok") is False:
+                res.validation_failures.append({"vc": vc.name, "path": [l for l in ctx.labels if l][-15:], **{k: vr.get(k) for k in ("diffs", "request", "native", "predicted_outcome")}})
         for name, prop, info in ob.reqs:
             res.obligation_names.add(name)
             r, m = discharge(ctx, prop, query_timeout_ms)
